@@ -301,6 +301,23 @@ theorem aligned_step {s s' : State} {op : Op} (hal : Aligned s) (h : step s op =
             ((alloc_alignedL _ _ _ _).cons ((alloc_alignedL _ _ _ _).cons (alloc_alignedL _ _ _ _))))
         · injection h with h; subst h
           exact aligned_setSlot hal (owned_aligned_of (alloc_alignedL _ _ _ _) (alloc_alignedL _ _ _ _))
+  | copy a b full =>
+    unfold step at h; simp only at h
+    split at h
+    · rename_i ca cb hsa hsb
+      have hca := slot_aligned hal hsa
+      split at h
+      · cases h
+      · split at h
+        · injection h with h; subst h; exact hal
+        · split at h
+          · cases h
+          · split at h
+            · cases h
+            · injection h with h; subst h
+              refine aligned_setSlot hal ?_
+              split <;> exact hca
+    · cases h
   | ldrop l =>
     unfold step at h; simp only at h
     split at h
